@@ -1,21 +1,21 @@
-use garnish_lang_traits::{RuntimeError, GarnishDataType, GarnishData, GarnishNumber};
+use garnish_lang_traits::{RuntimeError, GarnishDataType, GarnishData, GarnishNumber, Instruction};
 use crate::runtime::utilities::{next_two_raw_ref, push_unit};
 use crate::runtime::error::OrNumberError;
 
 pub fn make_range<Data: GarnishData>(this: &mut Data) -> Result<Option<Data::Size>, RuntimeError<Data::Error>> {
-    make_range_internal(this, false, false)
+    make_range_internal(this, Instruction::MakeRange, false, false)
 }
 
 pub fn make_start_exclusive_range<Data: GarnishData>(this: &mut Data) -> Result<Option<Data::Size>, RuntimeError<Data::Error>> {
-    make_range_internal(this, true, false)
+    make_range_internal(this, Instruction::MakeStartExclusiveRange, true, false)
 }
 
 pub fn make_end_exclusive_range<Data: GarnishData>(this: &mut Data) -> Result<Option<Data::Size>, RuntimeError<Data::Error>> {
-    make_range_internal(this, false, true)
+    make_range_internal(this, Instruction::MakeEndExclusiveRange, false, true)
 }
 
 pub fn make_exclusive_range<Data: GarnishData>(this: &mut Data) -> Result<Option<Data::Size>, RuntimeError<Data::Error>> {
-    make_range_internal(this, true, true)
+    make_range_internal(this, Instruction::MakeExclusiveRange, true, true)
 }
 
 pub(crate) fn range_len<Data: GarnishData>(start: Data::Number, end: Data::Number) -> Result<Data::Number, RuntimeError<Data::Error>> {
@@ -24,6 +24,7 @@ pub(crate) fn range_len<Data: GarnishData>(start: Data::Number, end: Data::Numbe
 
 fn make_range_internal<Data: GarnishData>(
     this: &mut Data,
+    instruction: Instruction,
     start_exclusive: bool,
     end_exclusive: bool,
 ) -> Result<Option<Data::Size>, RuntimeError<Data::Error>> {
@@ -47,8 +48,10 @@ fn make_range_internal<Data: GarnishData>(
             let addr = this.add_range(left_addr, right_addr)?;
             this.push_register(addr)?;
         }
-        _ => {
-            push_unit(this)?;
+        (l, r) => {
+            if !this.defer_op(instruction, (l, left_addr), (r, right_addr))? {
+                push_unit(this)?
+            }
         }
     }
 
